@@ -19,6 +19,12 @@ class Table:
 
     def __init__(self, xs, ys, y2, fwd, inv, yexp):
         self.xs, self.ys, self.y2 = r11(xs), r11(ys), r11(y2)
+        # the knots as written in the data file: a build that keeps more digits than %.10E follows these; either spline is "the shipped spline"
+        self.raw = None
+        if list(xs) != self.xs or list(ys) != self.ys or list(y2) != self.y2:
+            self.raw = Table.__new__(Table)
+            self.raw.xs, self.raw.ys, self.raw.y2, self.raw.n, self.raw.raw = list(xs), list(ys), list(y2), len(xs), None
+            self.raw.fwd, self.raw.inv, self.raw.yexp = fwd, inv, yexp
         self.n = len(xs)
         self.fwd, self.inv, self.yexp = fwd, inv, yexp
         self.nonmono = {k for k in range(self.n - 1) if self.xs[k + 1] < self.xs[k]}
@@ -111,6 +117,11 @@ def judge_point(st, fn, call, tab, arg, kind, case, quick_nt=True, ns=None):
         if err is not None or got != exp:
             st.violation("special:FF_Rayl:q0", case, exp, dict(value=got, error=err))
         return
+    if x is not None and tab.raw is not None and min(tab.xs[0], tab.raw.xs[0]) <= x < max(tab.xs[0], tab.raw.xs[0]):
+        st.cls("low_end_precision_band")      # between the first knot as written and as printed by the build: either outcome
+        if err is not None and got != 0.0:
+            st.violation("error-value:" + fn, dict(case, arg=arg), 0.0, got)
+        return
     if x is None or x < tab.xs[0]:
         st.cls("below_or_invalid")
         if err is None or got != 0.0:
@@ -142,8 +153,13 @@ def judge_point(st, fn, call, tab, arg, kind, case, quick_nt=True, ns=None):
     if nt:
         st.nt()
     if xrl.relerr(got, exp) > TOL and abs(got - exp) > 1e-300:
-        st.violation("value:" + fn, dict(case, arg=arg, kind=kind, x=x, interval=k), exp, got)
-        return
+        alt = None
+        if tab.raw is not None and tab.raw.xs[0] <= x <= tab.raw.xs[-1] + GUARD:
+            alt = tab.raw.spline(x, min(tab.raw.locate(x), tab.raw.n - 2))[0]
+        if alt is None or (xrl.relerr(got, alt) > TOL and abs(got - alt) > 1e-300):
+            st.violation("value:" + fn, dict(case, arg=arg, kind=kind, x=x, interval=k), exp, got)
+            return
+        st.cls("matches_unrounded_knots")
     if kind == "knot" and not tab.yexp and arg == tab.xs[k] and k not in tab.nonmono:
         # linear-space tables: the knot abscissa is exactly representable as an argument
         cands = {tab.ys[j] for j in range(tab.n) if tab.xs[j] == arg}
@@ -283,10 +299,11 @@ def work(item):
                 edge = None
                 if occupied:
                     e = edges.get((z, shell_by_val.get(s)))
+                    edge_raw = None
                     if e is not None and e > 0:
-                        edge = xrl.round11(e)
+                        edge, edge_raw = xrl.round11(e), e
                     elif shell_by_val.get(s, "")[:1] == "Q":
-                        edge = xrl.round11(d["partial"][s][0])  # shells beyond edges.dat: Kissel binding energy
+                        edge, edge_raw = xrl.round11(d["partial"][s][0]), d["partial"][s][0]  # shells beyond edges.dat: Kissel binding energy
                 if not occupied or edge is None or not (1 <= z <= zmax):
                     for arg in (1.0, 50.0, 150.0):
                         st.ev()
@@ -306,6 +323,9 @@ def work(item):
                     for t in (0.01, 0.5, 0.99, rng.random()):
                         args.append((edge + t * (first - edge), "extension"))
                 for arg, kind in args:
+                    if edge_raw is not None and edge_raw != edge and min(edge, edge_raw) <= arg <= max(edge, edge_raw):
+                        st.cls("edge_precision_band")      # between the edge as written and as printed by the build: either side
+                        continue
                     if arg > 0 and arg < edge:
                         st.ev()
                         st.cls("below_edge")
